@@ -73,7 +73,7 @@ def opEnc (args : List String) : String :=
   | some v =>
     match Cose.Go.toCbor v with
     | none => "unmodelled"
-    | some c => if dupFree c then "ok " ++ hex (encode c) else "unmodelled"
+    | some c => if dupFree c then "ok " ++ hex (encode c) else "err"   -- colliding labels: CoseMap.MarshalCBOR refuses
 
 def dispatch (op : String) (args : List String) : Option String :=
   match op with
